@@ -337,25 +337,25 @@ class BaseEvent(BaseModel, Generic[T_EventResultType]):
                                         # also when this handler is cancelled by its timeout mid-processing,
                                         # otherwise bus.wait_until_idle() blocks forever on event_queue.join()
                                         bus.event_queue.task_done()
-                                    processed_any = True
-                                    # that bus's run loop may be stuck behind the global lock (which we hold) and
-                                    # unable to tell a wait_until_idle() that nothing is left to do
-                                    if bus._on_idle and not (  # pyright: ignore[reportPrivateUsage]
-                                        bus.events_pending or bus.events_started or bus.event_queue.qsize()
-                                    ):
-                                        bus._on_idle.set()  # pyright: ignore[reportPrivateUsage]
-                                    # ... and so may the run loop of any other bus whose last unfinished events (ones it
-                                    # had forwarded or dispatched here) have just been finished by this processing
-                                    for other in list(EventBus.all_instances):
-                                        if (
-                                            other is not bus
-                                            and other._is_running  # pyright: ignore[reportPrivateUsage]
-                                            and other._on_idle  # pyright: ignore[reportPrivateUsage]
-                                            and other.event_queue
-                                            and not other._on_idle.is_set()  # pyright: ignore[reportPrivateUsage]
-                                            and not (other.events_pending or other.events_started or other.event_queue.qsize())
+                                        # that bus's run loop may be stuck behind the global lock (which we hold) and
+                                        # unable to tell a wait_until_idle() that nothing is left to do
+                                        if bus._on_idle and not (  # pyright: ignore[reportPrivateUsage]
+                                            bus.events_pending or bus.events_started or bus.event_queue.qsize()
                                         ):
-                                            other._on_idle.set()  # pyright: ignore[reportPrivateUsage]
+                                            bus._on_idle.set()  # pyright: ignore[reportPrivateUsage]
+                                        # ... and so may the run loop of any other bus whose last unfinished events (ones
+                                        # it had forwarded or dispatched here) have just been finished by this processing
+                                        for other in list(EventBus.all_instances):
+                                            if (
+                                                other is not bus
+                                                and other._is_running  # pyright: ignore[reportPrivateUsage]
+                                                and other._on_idle  # pyright: ignore[reportPrivateUsage]
+                                                and other.event_queue
+                                                and not other._on_idle.is_set()  # pyright: ignore[reportPrivateUsage]
+                                                and not (other.events_pending or other.events_started or other.event_queue.qsize())
+                                            ):
+                                                other._on_idle.set()  # pyright: ignore[reportPrivateUsage]
+                                    processed_any = True
                                     # Check if the event we're waiting for is now complete
                                     if self.event_completed_signal.is_set():
                                         break
